@@ -6,13 +6,13 @@ require (
 	github.com/cisco/go-hpke v0.0.0-20210524174249-dd22b38cf960
 	github.com/cloudflare/circl v1.3.7
 	github.com/cloudflare/pat-go v0.0.0
+	golang.org/x/crypto v0.35.0
 )
 
 require (
 	git.schwanenlied.me/yawning/x448.git v0.0.0-20170617130356-01b048fb03d6 // indirect
 	github.com/bwesterb/go-ristretto v1.2.3 // indirect
 	github.com/cisco/go-tls-syntax v0.0.0-20200617162716-46b0cfb76b9b // indirect
-	golang.org/x/crypto v0.35.0 // indirect
 	golang.org/x/sys v0.30.0 // indirect
 )
 
